@@ -35,10 +35,11 @@ def register(claim):
           "the journaler writes next_num_out.",
           NOTE_COMMON + " The arithmetic 'exactly one greater than the previous' across the resend rewind is C06/C14's bracket and is a known finding there.",
           "DESIGN.md#c05")
-    claim("C09", "symbolic provenance of counter writes vs journaled tag, dominance (journal before wire), call-graph reachability from constructors",
+    claim("C09", "symbolic provenance of counter writes vs journaled tag, dominance (journal before wire), call-graph reachability from constructors, E9 reachability of counter advance + journal write per message class",
           "Static: every live counter write has a durable twin of the same provenance (tag 34 of the journaled frame or set_seq_num), "
           "persist_msg dominates the transport write, constructors/connect never write counters and bind the session with matching CompID "
-          "roles, both loaders decode stored+1, renumbering commits, every accepted inbound message is journaled from a finally epilogue.",
+          "roles, both loaders decode stored+1, renumbering commits, every accepted inbound message is journaled from a finally epilogue; for every message class a message at the "
+          "expected number on an established session reaches the counter advance and the inbound journal write (E9); after a resend nothing is journaled behind the restore.",
           NOTE_COMMON + " 'Continues without loss after reconnect' for arbitrary histories is C07 territory and not decided. One pinned known finding (SequenceReset stored counter).",
           "DESIGN.md#c09")
     claim("C14", "suspension-point analysis (transitive await summaries) over CFG windows",
